@@ -1456,7 +1456,9 @@ def parse_unittest(test):
     testId = test.id()
     if testId is None:
         return None, None, None
-    testClassName = get_test_class_name(test)
+    # A failing subtest is reported for the test it belongs to: its id is
+    # the id of that test followed by the description of the subtest.
+    testClassName = get_test_class_name(getattr(test, 'test_case', test))
     testSuite = testClassName
     testName = testId[len(testClassName) + 1:]
     return testSuite, testName, testClassName
